@@ -801,6 +801,11 @@ func runSeq(fam *family, c *Case) (res *runResult, err error) {
 				return
 			}
 			if stop {
+				// no further call goes through the writer, but what it reports stays readable (a logging middleware reads it
+				// after the handler returned) and taking the connection over forwarded neither a header nor a body byte
+				if e := judgeState(w, co, offered); e != nil {
+					bad("%v", e)
+				}
 				return
 			}
 			if call.Op == opWrite || call.Op == opWriteString || call.Op == opReadFrom {
